@@ -49,7 +49,7 @@ def desc_class(d):
     return "unbounded" if d["n"] == 0 else "labels"
 
 
-def run(tier, seed, verdict):
+def run(tier, seed, verdict, only=None):
     nixio = core.import_nixio()
     from nixio import IndexMode, SliceMode
     MODE = {"leq": IndexMode.LessOrEqual, "less": IndexMode.Less, "geq": IndexMode.GreaterOrEqual}
@@ -147,6 +147,10 @@ def run(tier, seed, verdict):
             if isinstance(tx, tuple) and tx and tx[0] == "TX":
                 judge(tx[1])
 
+        if only is not None:
+            judge(only)
+            nf.close()
+            return None
         cfg = "MC_C07.cfg" if tier == "thorough" else "MC_C07_quick.cfg"
         res = core.run_tlc("MC_NixDim", cfg, tmp, workers=1, export_cb=cb, timeout=3000, coverage=False)
         res2 = core.run_tlc("MC_NixDim", "MC_C07_big.cfg", tmp, workers=1, export_cb=cb, timeout=3000, coverage=False)
@@ -192,3 +196,22 @@ def run(tier, seed, verdict):
         "a set dimension without labels is unbounded; index bound 64 stands in for 'unbounded' (law BigEnough)",
     ]
     return "model_checking", coverage, assumptions
+
+
+def _replay_vector(path, prop, runfn):
+    import json
+    with open(path) as fh:
+        rec = json.load(fh)
+    verdict = core.Verdict(prop, "quick", 0)
+    runfn("quick", 0, verdict, only=rec["replay"])
+    hit = rec["key"] in verdict.violations
+    for k, v in verdict.violations.items():
+        print("MISMATCH key=%s\n  %s" % (k, json.dumps(v["detail"], default=repr)[:700]))
+    print("recorded key %s: %s" % (rec["key"], "REPRODUCED" if hit else "not reproduced"))
+    if hit:
+        print("VIOLATION property=%s replay=%s" % (prop, path))
+    return 1 if hit else 0
+
+
+def replay(path):
+    return _replay_vector(path, "C07", run)
